@@ -14,6 +14,7 @@ Fail closed: a hook whose statements are not of an understood shape becomes
 `PreUnknown` / `ConsUnknown`; the model lets such a hook raise anything and
 the obligation `live_registry_known` (Props/C17.v) then fails."""
 import ast
+import collections
 import json
 import os
 import subprocess
@@ -23,13 +24,13 @@ class TranslateError(Exception):
     pass
 
 
-def dump(repo, py):
+def dump(repo, py, custom=False):
     here = os.path.dirname(os.path.abspath(__file__))
     script = os.path.join(os.path.dirname(here), "harness", "impl", "c17_impl.py")
     env = dict(os.environ)
     env.update({"PYTHONPATH": repo, "PYTHONHASHSEED": "0", "PYTHONDONTWRITEBYTECODE": "1"})
-    p = subprocess.run([py, script, "describe"], stdout=subprocess.PIPE, stderr=subprocess.PIPE, text=True, env=env,
-                       timeout=300)
+    p = subprocess.run([py, script, "describe"] + (["custom"] if custom else []), stdout=subprocess.PIPE,
+                       stderr=subprocess.PIPE, text=True, env=env, timeout=300)
     if p.returncode != 0:
         raise TranslateError("describe failed: " + p.stderr[-1500:])
     return json.loads(p.stdout)
@@ -458,6 +459,32 @@ def pre_for(qn, src):
 
 GENERIC_INITS = ("base._STIXBase", "base._Observable", "v21.base._Observable")
 
+# stix2/custom.py builder classes: `base_class.__init__(self, **kwargs); _cls_init(cls, self, kwargs)` and, for
+# objects and observables, the with_extension block
+CUSTOM_INIT_PLAIN = "base_class.__init__(self, **kwargs)\n_cls_init(cls, self, kwargs)"
+CUSTOM_INIT_WITH_EXT = CUSTOM_INIT_PLAIN + (
+    "\next = getattr(self, 'with_extension', None)\nif ext and version != '2.0':\n"
+    "    if 'extensions' not in self._inner:\n        self._inner['extensions'] = {}\n"
+    "    self._inner['extensions'][ext] = class_for_type(ext, version, 'extensions')()")
+
+
+def pre_for_custom(src, with_extension, user_init):
+    """prehook for a class built by stix2.custom around a user class"""
+    if src is None or user_init:
+        return "PreUnknown"         # the user class's own __init__ is arbitrary code
+    try:
+        fn = ast.parse(src).body[0]
+    except SyntaxError:
+        return "PreUnknown"
+    if [a.arg for a in fn.args.args] != ["self"] or not fn.args.kwarg or fn.args.vararg:
+        return "PreUnknown"
+    text = "\n".join(ast.unparse(b) for b in fn.body)
+    if text == CUSTOM_INIT_PLAIN:
+        return "(PreCustom false)"
+    if text == CUSTOM_INIT_WITH_EXT:
+        return "(PreCustom %s)" % ("true" if with_extension else "false")
+    return "PreUnknown"
+
 
 def slot_term(s):
     ref = {"none": "RefNone", "one": "RefOne", "many": "RefMany"}[s["objref"]]
@@ -474,15 +501,34 @@ def ident(key):
     return "c_" + "".join(ch if ch.isalnum() else "_" for ch in key)
 
 
-def emit(d):
+def emit(d, dc=None):
+    """d: describe of the library as imported; dc: describe after the harness's user registrations
+    (c17_impl.register_custom) -- only its extra classes and its registries are emitted (as `live_custom`)"""
     out = ["(* GENERATED by translators/tr_c17classes.py from the live classes of the repository under check. *)",
            "From Coq Require Import NArith ZArith List String Bool.",
            "From V Require Import Base.UString Base.Json Model.Errors.",
            "Import ListNotations.", "Open Scope string_scope.", ""]
-    hook_src = d["hook_src"]
     names = {}
     unknown = []
-    for key, c in d["classes"].items():
+    _emit_classes(d, d["classes"], out, names, unknown)
+    _emit_registry(d, "live", out, names)
+    out.append("Definition all_classes : list (string * cls) :=\n  [%s].\n" % ";\n   ".join(
+        "(%s, %s)" % (cstr(k), n) for k, n in names.items()))
+    if dc is not None:
+        for k in d["classes"]:
+            if k not in dc["classes"]:
+                raise TranslateError("library class %s disappears after user registrations" % k)
+        extra = collections.OrderedDict((k, c) for k, c in dc["classes"].items() if k not in d["classes"])
+        _emit_classes(dc, extra, out, names, unknown)
+        _emit_registry(dc, "live_custom", out, names)
+    out.append("Fixpoint class_named (k : string) (l : list (string * cls)) : option cls :=\n"
+               "  match l with [] => None | (k', c) :: r => if String.eqb k k' then Some c else class_named k r end.\n")
+    return "\n".join(out), unknown
+
+
+def _emit_classes(d, classes, out, names, unknown):
+    hook_src = d["hook_src"]
+    for key, c in classes.items():
         ver20 = c["version"] == "2.0"
         ic = c["init_chain"]
         if "v21.base._Observable" in ic:
@@ -499,8 +545,12 @@ def emit(d):
             pre = []
         if (kind in ("BObs20", "BObs21")) != (c["check_property"] == "base._Observable"):
             pre = ["PreUnknown"]
+        user_init = any(q.startswith("user:") for q in ic)
         for qn in ic:
-            if qn in GENERIC_INITS:
+            if qn in GENERIC_INITS or qn.startswith("user:"):
+                continue
+            if qn.startswith("custom._custom_") and "<locals>._Custom" in qn:
+                pre.append(pre_for_custom((hook_src.get(qn) or {}).get("__init__"), c.get("with_extension"), user_init))
                 continue
             pre.append(pre_for(qn, (hook_src.get(qn) or {}).get("__init__")))
         cons = cons_for(c["cons_chain"], hook_src, ver20)
@@ -514,6 +564,8 @@ def emit(d):
                        ";\n    ".join(slot_term(s) for s in c["slots"]),
                        "; ".join(pre), "; ".join(cons)))
 
+
+def _emit_registry(d, name, out, names):
     def table(ver, cat):
         rows = []
         for t, key in sorted(d["registry"].get(ver, {}).get(cat, {}).items()):
@@ -526,19 +578,15 @@ def emit(d):
     for t, tl in sorted((d.get("ext_toplevel", {}).get("2.1") or {}).items()):
         exts.append("{| x_name := %s; x_toplevel := %s |}" % (
             ustr(t), "None" if tl is None else "(Some [%s])" % "; ".join(slot_term(s) for s in tl)))
-    out.append("Definition live : registry := {|\n  r_objects20 := %s;\n  r_observables20 := %s;\n  r_markings20 := %s;\n"
+    out.append("Definition %s : registry := {|\n  r_objects20 := %s;\n  r_observables20 := %s;\n  r_markings20 := %s;\n"
                "  r_objects21 := %s;\n  r_observables21 := %s;\n  r_markings21 := %s;\n  r_extensions21 := [%s] |}.\n" % (
-                   table("2.0", "objects"), table("2.0", "observables"), table("2.0", "markings"),
+                   name, table("2.0", "objects"), table("2.0", "observables"), table("2.0", "markings"),
                    table("2.1", "objects"), table("2.1", "observables"), table("2.1", "markings"),
                    ";\n   ".join(exts)))
-    out.append("Definition all_classes : list (string * cls) :=\n  [%s].\n" % ";\n   ".join(
-        "(%s, %s)" % (cstr(k), n) for k, n in names.items()))
-    out.append("Fixpoint class_named (k : string) (l : list (string * cls)) : option cls :=\n"
-               "  match l with [] => None | (k', c) :: r => if String.eqb k k' then Some c else class_named k r end.\n")
-    return "\n".join(out), unknown
 
 
 def translate(repo, py):
     d = dump(repo, py)
-    text, unknown = emit(d)
-    return text, {"unknown_hooks": unknown, "fingerprints": d.get("fingerprints", {}), "describe": d}
+    dc = dump(repo, py, custom=True)
+    text, unknown = emit(d, dc)
+    return text, {"unknown_hooks": unknown, "fingerprints": d.get("fingerprints", {}), "describe": d, "describe_custom": dc}
